@@ -125,14 +125,34 @@ def scenario(e, cfg):
         # ---- creating where a dataset exists is refused and changes nothing
         before = _tree_digest(d.path)
         refused = False
+        # the same directory spelled differently: absolute, relative to the working directory, with redundant components,
+        # through the home directory
+        import os
+        spelling = e.choice("create_path_spelling", 4) if (cfg.get("spellings") or e.concrete) else 0
+        cwd, home = os.getcwd(), os.environ.get("HOME")
         try:
-            Dataset.create(path=d.path, metadata=d.metadata, dataset_structure=d.dataset_structure)
+            if spelling == 0:
+                target = d.path
+            elif spelling == 1:
+                os.chdir(d.path.parent)
+                target = Path(d.path.name)
+            elif spelling == 2:
+                target = d.path.parent / "." / d.path.name / ".." / d.path.name
+            else:
+                os.environ["HOME"] = str(d.path.parent)
+                target = Path("~") / d.path.name
+            try:
+                Dataset.create(path=target, metadata=d.metadata, dataset_structure=d.dataset_structure)
+            finally:
+                os.chdir(cwd)
+                if home is not None:
+                    os.environ["HOME"] = home
         except DatasetExistsError:
             refused = True
         except Exception as exc:  # noqa: BLE001
             e.fail(f"create over an existing dataset raised {type(exc).__name__} instead of DatasetExistsError",
                    dict(kind="create-wrong-error"))
-        e.prove(refused, "Dataset.create over an existing dataset was not refused", dict(kind="create-not-refused"))
+        e.prove(refused, f"Dataset.create over an existing dataset (path spelling #{spelling}) was not refused", dict(kind="create-not-refused"))
         e.prove(_tree_digest(d.path) == before, "refused Dataset.create changed the directory", dict(kind="create-changed-files"))
         return dict(history=hist)
 
@@ -143,9 +163,9 @@ def _cell(cell):
 
 def cells(tier):
     if tier == "quick":
-        return [dict(sessions=2, kind0=k, nchoices=2) for k in range(len(KINDS))] + [dict(sessions=1, nchoices=2)]
+        return [dict(sessions=2, kind0=k, nchoices=2) for k in range(len(KINDS))] + [dict(sessions=1, nchoices=2, spellings=True)]
     return ([dict(sessions=3, kind0=k, nchoices=1) for k in range(len(KINDS))] +
-            [dict(sessions=2, kind0=k, nchoices=2) for k in range(len(KINDS))])
+            [dict(sessions=2, kind0=k, nchoices=2) for k in range(len(KINDS))] + [dict(sessions=1, nchoices=2, spellings=True)])
 
 
 def collect(st, prop):
